@@ -92,7 +92,8 @@ theorem walkRuns_spec (f : Nat → Bytes) : ∀ (n pos : Nat) (cur : Run),
       · simp only [runSpans, List.map_cons, Tiles]
         refine ⟨trivial, h2, ?_⟩
         have hpn : pos + 1 + n = pos + (n + 1) := by omega
-        rw [hpn, ← h1] at ht
+        rw [hpn] at ht
+        rw [h1]
         exact ht
       · intro x hx i hi1 hi2
         rcases List.mem_cons.mp hx with hx | hx
